@@ -9,6 +9,9 @@
                                                   without a content (contents list shorter) fails to open
     dirfiles <missing|file|dir> <prefix> <rels>   DirFiles
     hashdir <missing|file|dir> <prefix> <rels> <contents>   HashDir with Hash1
+    dirfilesat <dirspelling> <kind> <prefix> <rels>            DirFiles called with a spelling of /S/c19root
+    hashdirat <dirspelling> <kind> <prefix> <rels> <contents>  HashDir called with a spelling of /S/c19root
+                                                  (`/S` stands for the scratch directory the Go side creates)
     hashzip <names> <contents>                    HashZip with Hash1 on the archive with these entries, in order
     hashmodzip <path> <version> <rels> <contents>   HashZip of zip.Create's archive for these files
     hashunzip <path> <version> <rels> <contents>    HashDir (prefix path@version) of the directory zip.Unzip extracts that archive to
@@ -42,6 +45,10 @@ def parseRoot (kind : String) (files : List (Bytes × Bytes)) : Option Root :=
 
 def sha : Bytes → Bytes := Sha256.sha256
 
+/-- the file system of the `...at` ops: the symbolic scratch directory `/S` holds `c19root` and nothing else -/
+def scratchFs (root : Root) (p : Bytes) : Root :=
+  if p == B "/S/c19root" then root else .missing
+
 def handle : Handler
   | "sort", [l] => do let l ← hxList l; pure (xhList (sortStrings l))
   | "clean", [p] => do let p ← hx p; pure (xh (clean p))
@@ -60,6 +67,14 @@ def handle : Handler
       let pfx ← hx pfx; let rels ← hxList rels; let cs ← hxList cs
       let root ← parseRoot kind (rels.zip cs)
       pure (showRes (hashDir sha root pfx))
+  | "dirfilesat", [dir, kind, pfx, rels] => do
+      let dir ← hx dir; let pfx ← hx pfx; let rels ← hxList rels
+      let root ← parseRoot kind (rels.map fun r => (r, []))
+      pure (showResList (dirFilesAt (scratchFs root) dir pfx))
+  | "hashdirat", [dir, kind, pfx, rels, cs] => do
+      let dir ← hx dir; let pfx ← hx pfx; let rels ← hxList rels; let cs ← hxList cs
+      let root ← parseRoot kind (rels.zip cs)
+      pure (showRes (hashDirAt sha (scratchFs root) dir pfx))
   | "hashzip", [ns, cs] => do
       let ns ← hxList ns; let cs ← hxList cs
       pure (showRes (hashZip sha (ns.zip cs)))
